@@ -209,6 +209,10 @@ func (e *Engine) applySummary(st *State, fr *Frame, callee *ssa.Function, fc *Fu
 	}()
 	var results []Val
 	if fc.Pure {
+		// A pure contracted function is a function symbol of its arguments (assumption, DESIGN 10.6: what it
+		// reads is not written between two of its calls by the function under proof). Applying the symbol
+		// to the heap arrays its contract reads as well — the sound encoding used for recursive
+		// specification functions — was tried and made the type-checker proofs intractable.
 		results = e.ufResults(st, "pure$"+shortFn(callee), callee.Signature, cargs)
 	} else {
 		if e.Mode == ModeSpec {
